@@ -18,12 +18,16 @@ T = 6000000000
 INITIAL_BP = ['!', 'wl_surface']
 COMMANDS = ['resume', 'quit', 'help', 'list', 'breakpoint wl_surface', 'breakpoint !', 'connection A', 'connection all',
             'filter wl_pointer', 'breakpoint ! .motion', 'r', 'q', 'connection B', 'connection Z', 'breakpoint [', 'filter *',
-            'breakpoint (wl_seat)', 'breakpoint ("wl_seat")']
+            'breakpoint (wl_seat)', 'breakpoint ("wl_seat")', 'breakpoint B: .commit']
 CMD_REF = {'breakpoint wl_surface': ('wl_surface', ['wl_surface'], []), 'breakpoint !': ('!', 'NONE', None),
            'breakpoint ! .motion': ('! .motion', [], ['.motion']),
+           'breakpoint B: .commit': ('B: .commit', ['B: .commit'], []),      # connection names are capitals: the text is case sensitive
            # two patterns that print alike (string arguments are printed without quotes) but mean different things
            'breakpoint (wl_seat)': ('(wl_seat)', ['(wl_seat)'], []), 'breakpoint ("wl_seat")': ('("wl_seat")', ['("wl_seat")'], [])}
 MSG_KINDS = ['commit', 'motion', 'enter', 'name', 'orphan']
+CONNS = ('1', '2', '3')
+# every kind on two connections; a third connection (needed to tell "the selected one" from "not the closed one") carries two
+MSGS = [(c, k) for c in ('1', '2') for k in MSG_KINDS] + [('3', 'commit'), ('3', 'motion')]
 
 
 def _u(conn, sent, iface, oid, name, args):
@@ -69,16 +73,19 @@ class RefPause:
         self.quit = False
         self.filter = 'all'      # the output filter must not influence halting, but it is part of the state
         self.impl_bp = None      # the implementation's own printed breakpoint: states that print differently are not merged
+        self.closed = set()      # connections libwayland has destroyed
+        # selection: None = all, a name, or '?' once the selected connection itself was destroyed (what is selected then
+        # is not specified: nothing about halting is demanded until the user selects again)
 
     def key(self):
-        return [self.bp.key(), self.selection, self.halted, self.quit, self.filter, self.impl_bp]
+        return [self.bp.key(), self.selection, self.halted, self.quit, self.filter, self.impl_bp, sorted(self.closed)]
 
     def enabled(self):
         if self.quit:
             return []
         if self.halted:
             return [['cmd', c] for c in COMMANDS] + [['continue']]
-        return [['msg', c, k] for c in ('1', '2') for k in MSG_KINDS]
+        return [['msg', c, k] for c, k in MSGS if c not in self.closed] + [['destroy', c] for c in CONNS if c not in self.closed]
 
 
 def run_hist(init_bp, hist, check_from=0):
@@ -88,7 +95,7 @@ def run_hist(init_bp, hist, check_from=0):
     V = []
     ref = RefPause(init_bp)
     try:
-        msgs = prelude('1') + prelude('2')
+        msgs = [m for c in CONNS for m in prelude(c)]
         npre = len(msgs)
         for e in hist:
             if e[0] == 'msg':
@@ -109,7 +116,7 @@ def run_hist(init_bp, hist, check_from=0):
             new_out = sut._lines(out.buffer[o0:])
             v = views[k]
             k += 1
-            want = ms.and3(ref.bp.selects(v), ref.selection is None or v.conn == ref.selection)
+            want = ms.and3(ref.bp.selects(v), None if ref.selection == '?' else (ref.selection is None or v.conn == ref.selection))
             stopped = [outparse.classify(l)[1] for l in new_out if outparse.classify(l)[0] == 'stopped']
             if checked and want is not None:
                 d = {'step': step, 'message': v.line, 'breakpoint': ref.bp.key(), 'selection': ref.selection,
@@ -137,6 +144,27 @@ def run_hist(init_bp, hist, check_from=0):
                 ref.halted = deliver(n, checked)
             elif e[0] == 'continue':
                 ref.halted = False
+            elif e[0] == 'destroy':
+                # libwayland destroys the connection: no message, so never a halt - whatever the pause flag still says
+                # (the user may have carried on with GDB's own `continue` after the last halt)
+                loc = inf.present_destroy(int(e[1]))
+                o0 = len(out.buffer)
+                ret = env['bps'][loc].stop()
+                new_out = sut._lines(out.buffer[o0:])
+                stopped = [l for l in new_out if outparse.classify(l)[0] == 'stopped']
+                name = ms.letters.word(CONNS.index(e[1]), caps=True)
+                ref.closed.add(e[1])
+                if ref.selection == name:
+                    ref.selection = '?'
+                if checked and (ret or stopped):
+                    V.append(Violation('halt.at_destroy', case, {'step': n, 'returned': ret, 'out': new_out}))
+                ref.halted = bool(ret)
+                o0 = len(out.buffer)
+                env['ctl'].process_command('connection')
+                marked = [cl['name'] for cl in map(outparse.connection_line, sut._lines(out.buffer[o0:])) if cl and cl['selected']]
+                if checked and ref.selection != '?' and marked != ([ref.selection] if ref.selection else []):
+                    V.append(Violation('halt.selection_state', case, {'step': n, 'event': list(e), 'expected_selected': ref.selection,
+                                                                      'listing_marks': marked}))
             else:
                 text = e[1]
                 x0 = len(gdb._state.executed)
@@ -179,7 +207,7 @@ def run_hist(init_bp, hist, check_from=0):
                 q = outparse.queried_matcher(sut._lines(out.buffer[o1:]))
                 bp_txt = [q] if q is not None else []
                 ref.impl_bp = bp_txt[0] if bp_txt else None
-                if checked and marked != ([ref.selection] if ref.selection else []):
+                if checked and ref.selection != '?' and marked != ([ref.selection] if ref.selection else []):
                     V.append(Violation('halt.selection_state', case, {'step': n, 'command': text, 'expected_selected': ref.selection,
                                                                       'listing_marks': marked}))
                 if checked and bp_txt and (bp_txt[0] in ('*', '!')) != (ref.bp.const is not None):
@@ -254,7 +282,7 @@ def run(run, tier, seed):
     run.add_part('terminal_ui', res)
     if tier == 'thorough':
         from .. import gdbreplay
-        gdbreplay.replay_c10(run)
+        run.parts_in_child(gdbreplay.replay_c10)
     run.rule = ('BFS over {messages: commit/motion/enter/name x 2 connections while running; %d commands via wl / wl<cmd> and '
                 'continue while halted} from 2 initial breakpoints, merged on (reference breakpoint, selection, halted, quit); '
                 'prompt loop: all command lists to the bound; non-trivial = history with a message and a command'
